@@ -99,13 +99,22 @@ func evalC14(c c14Case, o *Obs) error {
 		}
 		probes = append(probes, derivedItem(c.D.Seed+1, i))
 	}
-	f1, err := gcs.FromBytes(uint32(n), c.D.P, c.D.M, got)
+	in1 := append([]byte{}, got...)
+	f1, err := gcs.FromBytes(uint32(n), c.D.P, c.D.M, in1)
 	if err != nil {
 		return fmt.Errorf("%s: FromBytes failed: %v", desc, err)
 	}
-	f2, err := gcs.FromNBytes(c.D.P, c.D.M, nb)
+	in2 := append([]byte{}, nb...)
+	f2, err := gcs.FromNBytes(c.D.P, c.D.M, in2)
 	if err != nil {
 		return fmt.Errorf("%s: FromNBytes failed: %v", desc, err)
+	}
+	// the input buffers are the caller's: re-using them must not reach into the filters built from them
+	for i := range in1 {
+		in1[i] ^= 0xa5
+	}
+	for i := range in2 {
+		in2[i] ^= 0xa5
 	}
 	for name, r := range map[string]*gcs.Filter{"FromBytes": f1, "FromNBytes": f2} {
 		rb, _ := r.Bytes()
@@ -354,6 +363,23 @@ func evalC14Chain(c c14Chain, o *Obs) error {
 	got, _ := f.Bytes()
 	if f.N() != uint32(len(entries)) || f.P() != p || !bytes.Equal(got, want) {
 		return fmt.Errorf("builder chain P=%d M=%d %d distinct entries: N=%d P=%d bytes %x, want %x", p, m, len(entries), f.N(), f.P(), clip(got), clip(want))
+	}
+	// parameters changed after a Build apply to the next Build
+	if p != 21 && uint64(64)<<21 > m {
+		if f4, err := b.SetP(21).Build(); err != nil {
+			return fmt.Errorf("Build() after SetP(21) failed: %v", err)
+		} else if g4, _ := f4.Bytes(); f4.P() != 21 || !bytes.Equal(g4, refGCSEncode(21, refGCSValues(key, m, entries))) && len(entries) > 0 {
+			return fmt.Errorf("Build() after SetP(21) returns a filter with P=%d bytes %x (stale result of the previous Build?)", f4.P(), clip(g4))
+		}
+		b.SetP(p)
+	}
+	if m2 := m + 1; m2 <= 0xffffffff && len(entries) > 0 {
+		if f5, err := b.SetM(m2).Build(); err != nil {
+			return fmt.Errorf("Build() after SetM failed: %v", err)
+		} else if g5, _ := f5.Bytes(); !bytes.Equal(g5, refGCSEncode(p, refGCSValues(key, m2, entries))) {
+			return fmt.Errorf("Build() after SetM(%d) returns bytes %x, want %x (stale result of the previous Build?)", m2, clip(g5), clip(refGCSEncode(p, refGCSValues(key, m2, entries))))
+		}
+		b.SetM(m)
 	}
 	// the builder can be used again: same result, and one more entry gives the filter of the larger set
 	if f2, err := b.Build(); err != nil {
